@@ -17,6 +17,7 @@ import subprocess
 import vlib, gen, toolsgen as tg
 from vlib import Raw, coq, app
 
+THREADS = (1, 2, 3, 4, 8)
 KNOWN_MULTI = "gcov-json-line-in-several-functions"
 KNOWN_HIDDEN = "find-binaries-standard-filters"
 
@@ -126,7 +127,7 @@ def gcc_case(cli, sc, idx, prog, branch):
         items.append({"stem": stem, "gcno_name": os.path.basename(gcno), "run_ok": p.returncode == 0, "left": left})
     # (c) grcov, every thread count
     reports = {}
-    for n in (1, 2, 4):
+    for n in THREADS:
         p = sh([cli, b, "-t", "lcov", "--threads", str(n), "--no-demangle"] + (["--branch"] if branch else []),
                d, env={"TMPDIR": os.path.join(d, "tmp")})
         if p.returncode != 0:
@@ -159,12 +160,22 @@ def gcc_stream(chk, cli, ncases):
     w = {"files": {"m0.c": "#include <stdlib.h>\nint f(int a) { return a + 1; } int g(int a) { return a - 1; }\n"
                            "int main(int argc, char **argv)\n{\n    return f(argc) > 100;\n}\n"},
          "units": ["m0.c"], "runs": ["1"], "pair_line": True}
-    progs = [(-1, w, False)] + progs
+    def unit(k):
+        return ("#include <stdlib.h>\nint u%d(int a)\n{\n    if (a > %d)\n        return a + %d;\n    return a;\n}\n" % (k, k, k))
+    main = ("#include <stdlib.h>\nint u1(int); int u2(int); int u3(int); int u4(int); int u5(int);\n"
+            "int main(int argc, char **argv)\n{\n    int n = argc > 1 ? atoi(argv[1]) : 0;\n"
+            "    return u1(n) + u2(n) + u3(n) + u4(n) + u5(n) > 1000;\n}\n")
+    # several translation units, some with an extra dot in the file name (stats.v2.c -> stats.v2.gcno), two name sets
+    d1 = {"files": {"main.c": main, "alpha.c": unit(1), "stats.v2.c": unit(2), "beta.c": unit(3), "io.test.c": unit(4), "gamma.c": unit(5)},
+          "units": ["main.c", "alpha.c", "stats.v2.c", "beta.c", "io.test.c", "gamma.c"], "runs": ["3", "0"], "pair_line": False}
+    d2 = {"files": {"m0.c": main, "a.b.c": unit(1), "zeta.c": unit(2), "k.1.2.c": unit(3), "plain.c": unit(4), "w.x.c": unit(5)},
+          "units": ["m0.c", "a.b.c", "zeta.c", "k.1.2.c", "plain.c", "w.x.c"], "runs": ["7"], "pair_line": False}
+    progs = [(-1, w, False), (-2, d1, True), (-3, d2, False)] + progs
     with concurrent.futures.ThreadPoolExecutor(max_workers=8) as ex:
-        outs = list(ex.map(lambda t: gcc_case(cli, sc, t[0] + 1, t[1], t[2]), progs))
+        outs = list(ex.map(lambda t: gcc_case(cli, sc, t[0] + 3, t[1], t[2]), progs))
     known = {e["key"]: e for e in vlib.known_findings(chk.pid) if e.get("status") == "known"}
     dist = {"programs": len(progs), "runs_0": 0, "runs_1": 0, "runs_2plus": 0, "units_multi": 0, "with_header": 0, "with_subdir": 0,
-            "pair_line": 0, "branch": 0, "lines_compared": 0, "functions_compared": 0, "known_class_lines": 0,
+            "pair_line": 0, "branch": 0, "units_total": 0, "programs_with_dotted_unit_name": 0, "thread_counts": list(THREADS), "lines_compared": 0, "functions_compared": 0, "known_class_lines": 0,
             "latch_multiple": 0, "latch_single": 0}
     exprs, ecases = [], []
     pending_known = []
@@ -176,6 +187,8 @@ def gcc_stream(chk, cli, ncases):
         chk.count()
         dist["runs_%s" % (len(prog["runs"]) if len(prog["runs"]) < 2 else "2plus")] += 1
         dist["units_multi"] += len(prog["units"]) > 1
+        dist["units_total"] += len(prog["units"])
+        dist["programs_with_dotted_unit_name"] += any(os.path.basename(u).count(".") > 1 for u in prog["units"])
         dist["with_header"] += "util.h" in prog["files"]
         dist["with_subdir"] += any(u.startswith("sub/") for u in prog["units"])
         dist["pair_line"] += prog["pair_line"]
@@ -192,7 +205,7 @@ def gcc_stream(chk, cli, ncases):
             chk.violation({"kind": "oracle", "stream": "gcc", "case": case, "impl": reps[bad[0]], "clause": "grcov must exit 0 on gcc --coverage output"}, tag="gcc")
             continue
         r1 = reps[1]["report"]
-        for n in (2, 4):
+        for n in THREADS[1:]:
             if vlib.canon(reps[n]["report"]) != vlib.canon(r1):
                 chk.violation({"kind": "oracle", "stream": "gcc", "case": case, "threads": n, "impl": reps[n]["report"], "expected": r1,
                                "clause": "every thread count gives the same report"}, tag="gcc")
@@ -377,14 +390,24 @@ def llvm_stream(chk, cli, ncases):
            "canned": {"B0": [["src/a.c", {"lines": [[1, 1]], "branches": [], "funcs": []}]],
                       "B1": [["src/b.c", {"lines": [[1, 1]], "branches": [], "funcs": []}]]}, "garbage": {},
            "branch": False, "threads": [1], "abs_args": [False], "merge_fails": False}
-    cases = [wit] + cases
+    cov1 = lambda n: {"lines": [[1, n], [2, 1]], "branches": [], "funcs": [[gen.hexname("f%d" % n), 1, True]]}
+    same = {"inputs": [{"kind": "dir", "name": "profiles", "files": [["run1/default.profraw", "P1"], ["run2/other.profraw", "P2"]], "noise": []}],
+            "bins": {"ents": [{"path": "server/bin/tool", "kind": "elf", "id": "B0", "outcome": "ok"},
+                              {"path": "client/bin/tool", "kind": "elf", "id": "B1", "outcome": "ok"},
+                              {"path": "libexec/tool", "kind": "elf_noexec", "id": "B2", "outcome": "fail"},
+                              {"path": "libexec/helper", "kind": "elf", "id": "B3", "outcome": "ok"},
+                              {"path": "tool", "kind": "elf", "id": "B4", "outcome": "ok"}], "ignore_file": False, "single": None},
+            "canned": {"B0": [["src/server.c", cov1(3)]], "B1": [["src/client.c", cov1(5)]], "B3": [["src/helper.c", cov1(7)]],
+                       "B4": [["src/server.c", cov1(2)]]}, "garbage": {},
+            "branch": False, "threads": [1, 2, 4], "abs_args": [False], "merge_fails": False}
+    cases = [wit, same] + cases
     with concurrent.futures.ThreadPoolExecutor(max_workers=6) as ex:
         outs = list(ex.map(lambda t: llvm_case(cli, sc, t[0], t[1]), enumerate(cases)))
     known = {e["key"]: e for e in vlib.known_findings(chk.pid) if e.get("status") == "known"}
     dist = {"cases": len(cases), "grcov_runs": 0, "profiles": 0, "inputs_dir": 0, "inputs_zip": 0, "inputs_plain": 0, "both_kinds": 0,
             "same_name_in_several_archives": 0, "binaries": 0, "executables": 0, "failing_exports": 0, "garbage_exports": 0,
             "non_executables": 0, "hidden_or_ignored_executables": 0, "extra_exports_of_non_executables": 0, "single_file_binary_path": 0,
-            "merge_failure_cases": 0, "reports_with_shared_files": 0, "class_executables_not_exported": 0, "class_executables_exported": 0}
+            "merge_failure_cases": 0, "reports_with_shared_files": 0, "cases_with_same_named_executables": 0, "class_executables_not_exported": 0, "class_executables_exported": 0}
     exprs, ecases = [], []
     for case, runs in zip(cases, outs):
         exp = tg.expected_profiles(case["inputs"])
@@ -400,6 +423,8 @@ def llvm_stream(chk, cli, ncases):
         dist["non_executables"] += sum(not tg.is_executable(e) for e in case["bins"]["ents"])
         dist["hidden_or_ignored_executables"] += len(cls)
         dist["single_file_binary_path"] += bool(case["bins"]["single"])
+        exe_names = [os.path.basename(e["path"]) for e in case["bins"]["ents"] if tg.is_executable(e) and not tg.filtered_by_walker(e, case["bins"])]
+        dist["cases_with_same_named_executables"] += len(exe_names) != len(set(exe_names))
         dist["merge_failure_cases"] += case["merge_fails"]
         first_report = None
         ok_case = True
@@ -536,10 +561,10 @@ def run(chk):
     chk.extra["toolchain"] = {"gcov": v, "gcc": sh(["gcc", "--version"], "/").stdout.decode().split("\n")[0]}
     chk.cov["rule"] = ("(GCC) seeded C programs (1-3 translation units, optional sub-directory unit, header with static inline functions, straight-line / "
                        "if-else / for / while / switch / nested / ternary bodies, optional two functions on one line), gcc --coverage -O0, 0-3 runs; "
-                       "gcov -b -c text account (cross-checked with gcov --json-format) vs grcov -t lcov [--branch] --threads 1,2,4; glue model fed with "
+                       "gcov -b -c text account (cross-checked with gcov --json-format) vs grcov -t lcov [--branch] --threads 1,2,3,4,8; several translation units per program, some with an extra dot in the file name; glue model fed with "
                        "what `gcov <gcno> -i` leaves in a worker directory.  (LLVM) recording llvm-profdata/llvm-cov stand-ins under --llvm-path; "
                        "layouts over directories, zips, plain arguments (same relative names in several archives, _1 suffixes, noise files, both profile kinds); "
-                       "binary trees with ELF files with/without exec bit, scripts, text, empty and 1-byte files, failing and unparsable exports, dot-directories, "
+                       "binary trees with ELF files with/without exec bit, distinct executables sharing a file name in different directories, scripts, text, empty and 1-byte files, failing and unparsable exports, dot-directories, "
                        ".ignore rules, single-file binary path, merge failure; non-trivial = distinct case whose run exported at least one binary / distinct program")
     chk.cov["trusted_base"] = ["Coq kernel; vm_compute for the correspondence", "gcc 12 / gcov 12 themselves (the account IS gcov's output)",
                                "the driver's readers of gcov text, gcov JSON and grcov's lcov report", "the stub tools and their logs",
